@@ -233,7 +233,7 @@ type running struct {
 
 // endpoint spec: <identity>:<clientmode>:<behaviour>
 // identity: good1 good2 otherca selfsigned expired notyet wrongname tls11 down
-// clientmode: none request require requireother
+// clientmode: none request requesthint require requireother
 func startServer(ip string, port int, spec string) (*running, error) {
 	w := getWorld()
 	f := strings.SplitN(spec, ":", 3)
@@ -271,6 +271,9 @@ func startServer(ip string, port int, spec string) (*running, error) {
 	switch cmode {
 	case "request":
 		cfg.ClientAuth = tls.RequestClientCert
+	case "requesthint": // asks without requiring, and names another issuer as acceptable
+		pool.AddCert(w.clientCA2.cert)
+		cfg.ClientAuth, cfg.ClientCAs = tls.RequestClientCert, pool
 	case "require":
 		pool.AddCert(w.clientCA.cert)
 		cfg.ClientAuth, cfg.ClientCAs = tls.RequireAndVerifyClientCert, pool
@@ -383,11 +386,24 @@ func runSign(args []string) []string {
 
 func genSign(g *hx.Gen, out *hx.Out) {
 	idents := []string{"good1", "good1", "good1", "good2", "otherca", "selfsigned", "expired", "notyet", "wrongname", "tls11", "down"}
-	cmodes := []string{"none", "request", "require", "require", "requireother"}
+	cmodes := []string{"none", "request", "requesthint", "require", "require", "requireother"}
 	behavs := []string{"ok.1.c", "ok.1.c", "ok.2.c", "ok.3.sp", "ok.1.none", "ok.3.c.junk", "ok.2.none.junk", "empty", "garbage", "err.2", "err.14", "err.4", "err.7", "err.16", "err.13", "slow"}
 	var sets [][]string
 	sets = append(sets, []string{"-", "1", "1"})
 	sets = append(sets, []string{"-", "2", "1"})
+	// every single way an endpoint can fail, followed by a genuine endpoint that signs: every gRPC
+	// status code, an empty / unparsable reply, a reply after the deadline, and every way the TLS
+	// identity can be wrong
+	for code := 1; code <= 16; code++ {
+		sets = append(sets, []string{fmt.Sprintf("good1:none:err.%d|good2:request:ok.1.c", code), "2", "1"})
+	}
+	for _, b := range []string{"empty", "garbage", "slow"} {
+		sets = append(sets, []string{"good1:require:" + b + "|good1:none:ok.2.c", "2", "1"})
+	}
+	for _, id := range []string{"otherca", "selfsigned", "expired", "notyet", "wrongname", "tls11", "down"} {
+		sets = append(sets, []string{id + ":none:ok.1.c|good1:require:ok.1.c", "2", "1"})
+		sets = append(sets, []string{id + ":request:ok.1.c|" + id + ":none:ok.1.c|good2:none:ok.3.sp", "2", "1"})
+	}
 	for i := 0; i < *hx.Count; i++ {
 		n := 1 + g.Intn(4)
 		var specs []string
